@@ -271,6 +271,14 @@ func TestVerifC06RoundTrip(t *testing.T) {
 				st.Class("h1-foreign-compression")
 			}
 		}
+		// ... nor need it be as recent as utls' own hellos: a TLS 1.0 / 1.1-only client (no supported_versions) states
+		// its maximum in legacy_version
+		if h := vfParseClientHello(raw1); len(h.Violations) == 0 && h.Ext(43) == nil && len(raw1) > 6 && rapid.IntRange(0, 2).Draw(rt, "foreign_legacy_version") == 0 {
+			v := rapid.SampledFrom([]uint16{VersionTLS10, VersionTLS11}).Draw(rt, "legacy_version")
+			raw1 = append([]byte(nil), raw1...)
+			raw1[4], raw1[5] = byte(v>>8), byte(v)
+			st.Class(fmt.Sprintf("h1-foreign-legacy-version-%04x", v))
+		}
 		vf06RoundTrip(st, rt, src, raw1, f, fill, cm.RandSeed)
 	})
 }
